@@ -1,6 +1,6 @@
-def _g(dir_, pkg, sec, test, n_quick=400, n_thorough=6000):
+def _g(dir_, pkg, sec, test, n_quick=400, n_thorough=6000, shards_quick=1):
     return dict(dir=dir_, pkgname=pkg, files=["c15_driver_test.go.tmpl", "%s/c15_%s_test.go" % (dir_.replace("/", "_") or "root", sec)],
-                test=test, n_quick=n_quick, n_thorough=n_thorough, shards_quick=1, shards_thorough=4)
+                test=test, n_quick=n_quick, n_thorough=n_thorough, shards_quick=shards_quick, shards_thorough=4)
 
 SPEC = {
     "go": [
@@ -16,8 +16,10 @@ SPEC = {
         _g("informer/numpin", "numpin", "numpin", "TestVerifC15Numpin", 100),
         _g("observations", "observations", "observations", "TestVerifC15Metrics", 200),
         _g("observations", "observations", "observations", "TestVerifC15Tracing", 200),
-        _g("datastore/badger", "badger", "badger", "TestVerifC15Badger", 800),
-        _g("datastore/leveldb", "leveldb", "leveldb", "TestVerifC15Leveldb", 800),
+        _g("datastore/badger", "badger", "badger", "TestVerifC15Badger", 700, shards_quick=2),
+        _g("datastore/leveldb", "leveldb", "leveldb", "TestVerifC15Leveldb", 600, shards_quick=3),
+        dict(dir="config", pkgname="config_test", files=["config/c15_manager_test.go"], test="TestVerifC15Manager",
+             n_quick=150, n_thorough=3000, shards_quick=1, shards_thorough=2),
     ],
     "gen": ["ConfigSchemas"],
     "force": ["Model/C15_Check.v", "Proofs/C15_Tables.v"],
